@@ -51,6 +51,11 @@ func DataSets() []*Data {
 	}
 }
 
+// BigKeyData has neighbouring ids beyond the float64-exact range: a key that travels as a float names the wrong object.
+func BigKeyData() *Data {
+	return &Data{Users: []*User{{9007199254740993, 10, "odd"}, {9007199254740992, 20, "even"}}, Devices: []*Device{{9007199254740995, 10, true}}, Admins: nil}
+}
+
 func (d *Data) user(id int64) *User {
 	for _, u := range d.Users {
 		if u.Id == id {
